@@ -337,6 +337,8 @@ def with_extmon(rnd, scs, share=0.35, tcp=0.3):
             sc["extmon"] = True
         if "sessions" in sc and rnd.random() < tcp:
             sc["transport"] = "tcp"
+        if "tasks" in sc:                       # client-library scenarios: unix socket, TCP or WebSocket
+            sc["transport"] = rnd.choice(["unix", "unix", "tcp", "ws"])
     return scs
 
 
